@@ -1,7 +1,7 @@
 """C23 — HTTP writes acknowledged as queued are never silently dropped (partial)."""
 from sa import names as N
 from sa.prog import Site, Slice, TERM, callee_of, op_local, outcome_arms, in_arm, ok_sites
-from sa.rules.common import is_test_or_bench
+from sa.rules.common import is_test_or_bench, is_queue_receiver
 from sa.rules.http_common import routes, handler_fns
 
 EXPLANATION = ("Decides for all request sequences: (a) no route handler can reach the queue-wiping IndexWriter::rollback, nor "
@@ -101,7 +101,7 @@ def r23b(ctx, P, rts):
            "written" % (late[0].loc() if late else "?", apps[0].loc() if apps else "?"), apps[0].loc() if apps else "%s:%s" % (f.file, f.line))
     for a in apps:
         arms = outcome_arms(f, a)
-        pushes = [Site(f, b) for b, t in f.calls() if callee_of(t).endswith("Vec::<T, A>::push") and "pending_ops" in sl.fields(t["args"][0])]
+        pushes = [Site(f, b) for b, t in f.calls() if callee_of(t).endswith("Vec::<T, A>::push") and is_queue_receiver(f, sl, t["args"][0])]
         okp = bool(pushes) and all(in_arm(f, p, arms["ok"]) for p in pushes)
         ctx.ob(rid, "%s:add_documents:push-after-append" % rid, okp, "queue push only after a successful append" if okp else
                "queue push is not confined to the append's success arm", a.loc())
